@@ -39,16 +39,16 @@ theorem vals_trailerField (c : Bool) (d : Option (List Bytes)) (k : Bytes) (hk :
 multiplicity and in order. -/
 theorem relayRequest_e2e_vals (p : Parsed) (x : Relayed) (hx : relayRequest p = some x) (k : Bytes)
     (hk : reqRewritten.contains k = false) : vals x.msg.hdr k = vals p.msg.hdr k := by
-  unfold relayRequest at hx
+  simp only [relayRequest] at hx
   split at hx
   · cases hx
   · simp only [Option.some.injEq] at hx
     subst hx
     simp only [reqRewritten, List.contains_cons, List.contains_nil, Bool.or_false, Bool.or_eq_false_iff] at hk
     obtain ⟨h1, h2, h3, h4, h5, h6⟩ := hk
-    have e1 : (connKey == k) = false := by rw [Bool.eq_false_iff] at h6 ⊢; intro h; exact h6 (by simpa [eq_comm] using h)
-    have e2 : (trailerKey == k) = false := by rw [Bool.eq_false_iff] at h5 ⊢; intro h; exact h5 (by simpa [eq_comm] using h)
-    have e3 : (uaKey == k) = false := by rw [Bool.eq_false_iff] at h2 ⊢; intro h; exact h2 (by simpa [eq_comm] using h)
+    have e1 : (connKey == k) = false := by rw [BEq.comm]; exact h6
+    have e2 : (trailerKey == k) = false := by rw [BEq.comm]; exact h5
+    have e3 : (uaKey == k) = false := by rw [BEq.comm]; exact h2
     simp only [vals_append, vals_connCloseField _ _ k e1, vals_trailerField _ _ k e2]
     have hua : ∀ l : List KV, (∀ kv ∈ l, kv.1 = uaKey) → vals l k = [] := by
       intro l hl
@@ -69,15 +69,15 @@ theorem relayRequest_e2e_vals (p : Parsed) (x : Relayed) (hx : relayRequest p = 
 theorem relayResponse_e2e_vals (meth : Bytes) (closing : Bool) (p : Parsed) (x : Relayed)
     (hx : relayResponse meth closing p = some x) (k : Bytes)
     (hk : resRewritten.contains k = false) : vals x.msg.hdr k = vals p.msg.hdr k := by
-  unfold relayResponse at hx
+  simp only [relayResponse] at hx
   split at hx
   · cases hx
   · simp only [Option.some.injEq] at hx
     subst hx
     simp only [resRewritten, List.contains_cons, List.contains_nil, Bool.or_false, Bool.or_eq_false_iff] at hk
     obtain ⟨h3, h4, h5, h6⟩ := hk
-    have e1 : (connKey == k) = false := by rw [Bool.eq_false_iff] at h6 ⊢; intro h; exact h6 (by simpa [eq_comm] using h)
-    have e2 : (trailerKey == k) = false := by rw [Bool.eq_false_iff] at h5 ⊢; intro h; exact h5 (by simpa [eq_comm] using h)
+    have e1 : (connKey == k) = false := by rw [BEq.comm]; exact h6
+    have e2 : (trailerKey == k) = false := by rw [BEq.comm]; exact h5
     simp only [vals_append, vals_connCloseField _ _ k e1, vals_trailerField _ _ k e2, List.nil_append]
     apply vals_filter_notin
     simp only [List.contains_cons, List.contains_nil, Bool.or_false, Bool.or_eq_false_iff]
@@ -87,7 +87,7 @@ theorem relayResponse_e2e_vals (meth : Bytes) (closing : Bool) (p : Parsed) (x :
 theorem relayRequest_fields (p : Parsed) (x : Relayed) (hx : relayRequest p = some x) :
     x.msg.method = p.msg.method ∧ x.msg.url = originForm p.msg.url ∧ x.msg.body = p.msg.body ∧
     x.msg.host = p.msg.host ∧ isChunked x.msg.te = isChunked p.msg.te ∧ x.noBody = false := by
-  unfold relayRequest at hx
+  simp only [relayRequest] at hx
   split at hx
   · cases hx
   · simp only [Option.some.injEq] at hx
@@ -100,7 +100,7 @@ theorem relayResponse_fields (meth : Bytes) (closing : Bool) (p : Parsed) (x : R
     x.msg.code = p.msg.code ∧ x.msg.major = p.msg.major ∧ x.msg.minor = p.msg.minor ∧
     (meth == headTok) = x.noBody ∧ ((meth == headTok) = false → x.msg.body = p.msg.body) ∧
     isChunked x.msg.te = isChunked p.msg.te := by
-  unfold relayResponse at hx
+  simp only [relayResponse] at hx
   split at hx
   · cases hx
   · simp only [Option.some.injEq] at hx
